@@ -15,6 +15,7 @@ import (
 	"path/filepath"
 	"runtime"
 	"sort"
+	"strconv"
 	"strings"
 	"sync"
 	"time"
@@ -93,6 +94,12 @@ func isPrefix(a, b doctree.Path) bool {
 	return true
 }
 
+// independentMembers: keys of objects/arrays whose members are definitions independent of each other.
+var independentMembers = map[string]bool{"": true, "paths": true, "webhooks": true, "components": true, "schemas": true, "parameters": true, "responses": true,
+	"headers": true, "requestBodies": true, "securitySchemes": true, "examples": true, "links": true, "callbacks": true, "properties": true,
+	"patternProperties": true, "definitions": true, "$defs": true, "content": true, "encoding": true, "allOf": true, "oneOf": true, "anyOf": true, "enum": true,
+	"required": true, "servers": true, "security": true, "tags": true, "variables": true, "mapping": true, "scopes": true, "flows": true}
+
 // related decides whether a reported node q is acceptable for mutant m.
 func related(tree *jsonv.Value, q doctree.Path, m *mutate.Mutant) (bool, string) {
 	f := m.Focus
@@ -116,7 +123,15 @@ func related(tree *jsonv.Value, q doctree.Path, m *mutate.Mutant) (bool, string)
 	if (m.Kind == "duplicate-key" || m.Kind == "rename-collide") && len(q) >= 1 && isPrefix(f[:max(len(f)-1, 0)], q) {
 		return true, "sibling"
 	}
-	// mention: the reported node (its key or a scalar in its subtree) names the mutated node
+	// member of the same small object: with one member of an object broken, the object as a whole is what
+	// offends, and a position at another member of it (a default that no longer fits the type, an encoding entry
+	// naming a property of the replaced schema) lies inside it. Not for containers of independent definitions.
+	if len(f) >= 2 && !independentMembers[f[len(f)-2]] && isPrefix(f[:len(f)-1], q) {
+		if _, err := strconv.Atoi(f[len(f)-1]); err != nil {
+			return true, "member-of-the-same-object"
+		}
+	}
+	// mention: the reported node (a key on the way to it or a scalar in its subtree) names the mutated node
 	mention := false
 	check := func(s string) {
 		for _, n := range m.Names {
@@ -127,6 +142,21 @@ func related(tree *jsonv.Value, q doctree.Path, m *mutate.Mutant) (bool, string)
 	}
 	if len(q) > 0 {
 		check(q[len(q)-1])
+	}
+	// a mutated string scalar whose old value is spelled in a key on the way to the reported node, e.g. parameter
+	// name "param" and the path template "/foo/{param}/xyz" above the operation that now misses that parameter
+	var vals []string
+	for i, n := range m.Names {
+		if i > 0 && !strings.HasPrefix(n, "#/") {
+			vals = append(vals, n)
+		}
+	}
+	if len(vals) == 1 && len(vals[0]) >= 3 {
+		for _, k := range q {
+			if strings.Contains(k, vals[0]) {
+				mention = true
+			}
+		}
 	}
 	if tree == nil {
 		return false, "unrelated"
